@@ -109,7 +109,7 @@ Section Readback.
 
   Lemma step_keeps_body b r o : keeps_body o -> holds b r -> holds b (fst (stp r o)).
   Proof.
-    intros Hk [Hi [Hl Hc]]. split; [apply step_inv; exact Hi|].
+    intros Hk [Hi [Hl Hc]]. split; [apply step_inv; [destruct o; try contradiction; intros []|exact Hi]|].
     unfold step. destruct o; try contradiction.
     - (* body *) pose proof (get_body_is_list r Hl) as A. pose proof (get_body_content r) as B.
       destruct (get_body r). cbn [fst] in *. split; [exact A|congruence].
@@ -184,7 +184,7 @@ Section Readback.
       + pose proof (hlast_hset_other K_CT N_LOC x (r_headers r)) as P.
         destruct (hset N_LOC x (r_headers r)) as [h e]. cbn [fst r_headers with_headers] in *. apply P. discriminate.
       + cbn [r_headers with_headers]. apply hlast_hdel_other. discriminate.
-    - cbn [fst]. unfold call. destruct head; cbn [after]; destruct (r_app r) as [cs|[|] cs]; reflexivity.
+    - cbn [fst]. unfold call. destruct head; cbn [after]; destruct (r_app r) as [cs|[|] cs|cs]; reflexivity.
   Qed.
 
   (* .text reads back the text last written, whatever operations that keep body and Content-Type
@@ -363,14 +363,22 @@ Section Top.
   Variable c : cfg.
   Notation runops := (run_ops gz gunzip inflate md5b64 uj c).
 
-  Theorem cl_inv_history a ops r : wf_args a -> mk c a = Ok r -> cl_inv (runops ops r).
-  Proof. intros Hw Hm. apply run_inv. apply (mk_inv c a r Hw Hm). Qed.
+  Theorem cl_inv_history a ops r : wf_args a -> mk c a = Ok r ->
+    Forall (fun o => ~ raw_edit o) ops -> cl_inv (runops ops r).
+  Proof. intros Hw Hm Hf. apply run_inv; [exact Hf|]. apply (mk_inv c a r Hw Hm). Qed.
 
-  Theorem wire_history a ops r : wf_args a -> mk c a = Ok r ->
+  (* the same at the WSGI boundary, from ANY state r0, once a resetting body mutation has happened *)
+  Theorem wire_after_reset r0 o ops : resetting o -> Forall (fun o => ~ raw_edit o) ops ->
+    let k := call uj false (runops ops (fst (step gz gunzip inflate md5b64 uj c r0 o))) in
+    forall st hl, In (st, hl) (sr_calls k) ->
+      Forall (fun v => v = dec (blen (List.concat (yielded k)))) (clvals hl).
+  Proof. intros Hr Hf k. apply wire_truthful. apply run_inv_after_reset; assumption. Qed.
+
+  Theorem wire_history a ops r : wf_args a -> mk c a = Ok r -> Forall (fun o => ~ raw_edit o) ops ->
     let k := call uj false (runops ops r) in
     forall st hl, In (st, hl) (sr_calls k) ->
       Forall (fun v => v = dec (blen (List.concat (yielded k)))) (clvals hl).
-  Proof. intros Hw Hm k. apply wire_truthful. apply (cl_inv_history a ops r Hw Hm). Qed.
+  Proof. intros Hw Hm Hf k. apply wire_truthful. apply (cl_inv_history a ops r Hw Hm Hf). Qed.
 
   Theorem body_read_is_content r : cl_inv r ->
     snd (get_body r) = Ok (content r) /\ content (fst (get_body r)) = content r /\ cl_inv (fst (get_body r)).
